@@ -118,6 +118,13 @@ func scenarios() []scenario {
 		dump.File{Name: "y.yang", Text: `module y { ` + H("y") + ` typedef t { type int32; } identity b; grouping g { leaf gy { type t; } } container cy; }`},
 		dump.File{Name: "m.yang", Text: `module m { ` + H("m") + ` import x { prefix p; } include s1; typedef tm { type p:t; } identity im { base p:b; } leaf lm { type tm; } leaf lm2 { type p:t; } container um { uses p:g; } augment /p:cx { leaf am { type p:t; } } leaf rm { type identityref { base p:b; } } }`},
 		dump.File{Name: "s1.yang", Text: `submodule s1 { belongs-to m { prefix m; } import y { prefix p; } typedef ts { type p:t; } identity is { base p:b; } leaf ls { type ts; } leaf ls2 { type p:t; } container us { uses p:g; } augment /p:cy { leaf as { type p:t; } } leaf rs { type identityref { base p:b; } } }`})
+	// derivation chains that pass through different typedefs of the same name (across imports, and
+	// by shadowing in an inner scope)
+	add("same-named-typedef-chains", nil,
+		dump.File{Name: "na.yang", Text: `module na { ` + H("na") + ` import nb { prefix nb; } typedef percent { type nb:percent { range "0..50"; } units a; } leaf la { type percent; }
+ typedef level { type int16; } typedef reading { type level; } container c { typedef level { type reading { range "1..9"; } } leaf lc { type level; } list li { key k; typedef reading { type level; } leaf k { type reading; } } } }`},
+		dump.File{Name: "nb.yang", Text: `module nb { ` + H("nb") + ` import nc { prefix nc; } typedef percent { type nc:percent { range "0..90"; } default 7; } leaf lb { type percent; } }`},
+		dump.File{Name: "nc.yang", Text: `module nc { ` + H("nc") + ` typedef percent { type uint8 { range "0..100"; } units c; } leaf lc { type percent; } }`})
 	// several typedefs derived from one typedef whose accumulated pattern list has spare capacity
 	// (3 and 5 patterns), each adding a pattern: resolved in dictionary order
 	add("typedefs-narrowing-a-shared-pattern-list", nil,
